@@ -10,6 +10,7 @@ import (
 	"os/exec"
 	"path/filepath"
 	"regexp"
+	"runtime"
 	"sort"
 	"strconv"
 	"strings"
@@ -171,6 +172,8 @@ type fsImpl struct {
 	nextV   int
 	nextH   int
 	mtimes  map[int64]bool
+	fsuid   int
+	fsgid   int
 	leak    string // base-path prefix that must never show up in errors or results (BasePathFS)
 	leaked  string
 	dead    bool // a call hung or panicked while holding locks: the instance is unusable
@@ -228,6 +231,9 @@ func (o *fsOracle) cleanup() {
 
 // oracleMain is the child: chroot, create the system directories, serve lines.
 func oracleMain(dir string) {
+	// the file-system identity (fsuid / fsgid) is per thread: stay on one OS thread for the whole session
+	runtime.LockOSThread()
+	_ = syscall.Setgroups([]int{})
 	if err := syscall.Chroot(dir); err != nil {
 		fmt.Println("chroot failed:", err)
 		os.Exit(3)
@@ -358,6 +364,13 @@ func (m *fsImpl) checkLeak(err error) {
 
 var leakSink *fsImpl
 
+// rawSetFsIds changes the file-system identity of the CURRENT OS thread only (raw syscalls; the syscall package's
+// wrappers go through AllThreadsSyscall, which is unavailable in cgo binaries).
+func rawSetFsIds(uid, gid int) {
+	_, _, _ = syscall.RawSyscall(syscall.SYS_SETFSGID, uintptr(gid), 0, 0)
+	_, _, _ = syscall.RawSyscall(syscall.SYS_SETFSUID, uintptr(uid), 0, 0)
+}
+
 func okOrErr(err error) string {
 	if leakSink != nil {
 		leakSink.checkLeak(err)
@@ -372,6 +385,10 @@ func okOrErr(err error) string {
 func (m *fsImpl) call(line string) string {
 	if m.dead {
 		return "dead"
+	}
+	if m.osMode {
+		// the oracle child: stay on the locked OS thread (fsuid / fsgid are per thread)
+		return normMtime(m.exec(line), m.mtimes)
 	}
 	ch := make(chan string, 1)
 	go func() {
@@ -423,6 +440,15 @@ func (m *fsImpl) exec(line string) string {
 		}
 		return vfs.(*memfs.MemFS).VerifDump()
 	case "snap":
+		// the tree is always looked at as the administrator, whoever is acting
+		if m.osMode {
+			rawSetFsIds(0, 0)
+			defer rawSetFsIds(m.fsuid, m.fsgid)
+		} else if mv, ok := vfs.(*memfs.MemFS); ok {
+			u := mv.User()
+			_ = mv.SetUser(&verifUser{name: "root", uid: 0, gid: 0})
+			defer func() { _ = mv.SetUser(u) }()
+		}
 		return m.snap(vfs)
 	case "viewinfo":
 		cwd, _ := vfs.Getwd()
@@ -540,6 +566,9 @@ func (m *fsImpl) exec(line string) string {
 		return fmt.Sprintf("ok v %d", id)
 	case "setuser":
 		if m.osMode {
+			// act as that user for file-system access checks (the process stays root otherwise)
+			m.fsuid, m.fsgid = atoiS(a[0]), atoiS(a[1])
+			rawSetFsIds(m.fsuid, m.fsgid)
 			return "ok"
 		}
 		_ = vfs.SetUser(&verifUser{name: "u" + a[0], uid: atoiS(a[0]), gid: atoiS(a[1])})
@@ -547,7 +576,7 @@ func (m *fsImpl) exec(line string) string {
 	case "setumask":
 		n, _ := strconv.ParseUint(a[0], 10, 32)
 		if m.osMode {
-			_ = avfs.SetUMask(toFileMode(uint32(n)))
+			syscall.Umask(int(n & 0o777))
 			return "ok"
 		}
 		_ = vfs.SetUMask(toFileMode(uint32(n)))
